@@ -230,7 +230,7 @@ CHECKS["C09"] = dict(
 CHECKS["C01"] = dict(
     src="harness/C01_paths.cpp",
     also=["C01B", "C01P"],
-    cases=dict(quick=3600, thorough=50000),
+    cases=dict(quick=3000, thorough=50000),
     rule="(filled below)",
     technique="property-based testing: generated planning problems per planner, independent path re-validation oracle, one forked process per case",
     level_text="Every shipped geometric / multilevel planner that can be instantiated generically (47 registry entries; companion C01B adds VFRRT, "
@@ -259,14 +259,14 @@ CHECKS["C01"]["rule"] = (
     "start, all states in bounds (raw coordinates), dense validity (invalid runs <= 2r at r/20 sampling), strict re-check of every consecutive pair "
     "with the harness's own k/n loop for tree/roadmap planners. Non-trivial = a solution whose straight start-goal motion is invalid, or an "
     "abnormal scenario; distinct = consumed byte prefix. "
-    "Companion C01B (bespoke fixtures, 1200 / 16000 cases): (31%) QRRT / QRRTStar / QMP / QMPStar on real bundle sequences R2<SE2, R3<SE3, "
+    "Companion C01B (bespoke fixtures, 1000 / 16000 cases): (31%) QRRT / QRRTStar / QMP / QMPStar on real bundle sequences R2<SE2, R3<SE3, "
     "R2<R^n, R2<R^m<R^n, relaxation R2<R2 (a lower level sees all or a subset of the obstacles); (12%) VFRRT on R^n with a generated vector field "
     "(drift, sink, rotation, none) and exploration / lambda / update-frequency settings; (12%) TSRRT on R^n with the (x,y) task space and a lift that "
     "may fail; (25%) ST-RRT* on R^2 x time with a speed limit, static obstacles and a moving ball, bounded or unbounded time, generated rewiring / batch / "
     "time-bound-factor settings; each under a history solve [-> continued solve | clear + solve]* with the same oracle (for ST-RRT*: every consecutive "
     "pair passes the user's motion rule again, time within bounds, start at t = 0); (12%) LightningRetrieveRepair on a generated experience database "
     "(1..4 paths recorded 'in another environment'); (6%) XXL with a grid decomposition of the position. "
-    "Companion C01P (configuration coverage, 1200 / 20000 cases; the C01 harness built with -DVF_C01P): planners drawn in proportion to what they let the caller configure (1 + 3 per declared switch + 1 per numeric parameter), every case sets planner parameters (each "
+    "Companion C01P (configuration coverage, 1000 / 20000 cases; the C01 harness built with -DVF_C01P): planners drawn in proportion to what they let the caller configure (1 + 3 per declared switch + 1 per numeric parameter), every case sets planner parameters (each "
     "declared switch / numeric parameter with probability 1/2), a third of the normal single-goal problems have the goal walled in (valid but unreachable), "
     "59% of the budgets come from the top of the range: non-default configurations under long searches that end without an exact solution.")
 
@@ -302,7 +302,7 @@ CHECKS["C03"]["rule"] = (
 
 CHECKS["C04"] = dict(
     src="harness/C04_costs.cpp",
-    cases=dict(quick=1500, thorough=40000),
+    cases=dict(quick=1200, thorough=40000),
     rule="Case = (53%) part A: optimizing planner (22 registry entries) x problem (normal scenarios of C01; two fifths with a large goal region, threshold 1.0..2.8; a quarter with some declared planner switches flipped) x objective {path length, state-cost "
          "integral over a generated smooth field, mechanical work, max-min clearance, weighted length+integral} x cost threshold {never satisfied, "
          "always satisfied, generated finite} x 1..4 continued solves with evaluation budgets 50..3000 (a quarter of the continued solves preceded by pdef->clearSolutionPaths(); 55% of the cases "
@@ -486,14 +486,14 @@ CHECKS["C03C"] = dict(
 CHECKS["C01B"] = dict(
     src="harness/C01B_bespoke.cpp",
     registered=False,
-    cases=dict(quick=1200, thorough=16000),
+    cases=dict(quick=1000, thorough=16000),
     rule="companion of C01", technique="", level_text="", level_note="",
 )
 CHECKS["C01P"] = dict(
     src="harness/C01_paths.cpp",
     cxxflags=["-DVF_C01P"],
     registered=False,
-    cases=dict(quick=1200, thorough=20000),
+    cases=dict(quick=1000, thorough=20000),
     rule="companion of C01", technique="", level_text="", level_note="",
 )
 CHECKS["C19P"] = dict(
